@@ -29,6 +29,8 @@ type c03Case struct {
 	Code     []byte       `json:"code"`          // submitted string (bytes: may be invalid UTF-8)
 	Origin   string       `json:"origin"`        // how the generator built it (informational)
 	Via      int          `json:"via,omitempty"` // explicit parameters routed through an exported default pointer (see viaDefault)
+	// an operation of another family run immediately before the call (see disturb; omitted = none)
+	Before int `json:"before,omitempty"`
 }
 
 // windowSet returns the codes of counters max(0,c-s)..c+s (c+s must not overflow).
@@ -65,6 +67,7 @@ func checkC03(c c03Case) verdict {
 	if c.Via != 0 && !c.NilParam {
 		labels = append(labels, "via-exported-default")
 	}
+	disturb(c.Before)
 	got, err := otp.ValidateHOTP(secret, string(c.Code), c.Counter, param)
 	supported := digits >= 1 && digits <= 10 && algo >= 0 && algo <= 2
 	if skew > 10 {
@@ -161,6 +164,12 @@ func drawSubmission(t *rapid.T, key []byte, centre, skew uint64, digits, algo in
 }
 
 func genC03(t *rapid.T) c03Case {
+	c := genC03Base(t)
+	c.Before = drawDisturb(t) // drawn last: the cases of a seed are otherwise what they were
+	return c
+}
+
+func genC03Base(t *rapid.T) c03Case {
 	c := c03Case{Key: gen.Key().Draw(t, "key"), Sp: gen.DrawSpelling(t), Counter: gen.Counter().Draw(t, "counter")}
 	c.Digits = rapid.SampledFrom([]int{1, 2, 3, 4, 6, 6, 7, 8, 9, 10}).Draw(t, "digits")
 	c.Algo = rapid.IntRange(0, 2).Draw(t, "algo")
@@ -217,6 +226,8 @@ type c04Case struct {
 	Code     []byte       `json:"code"`
 	Origin   string       `json:"origin"`
 	Via      int          `json:"via,omitempty"` // explicit parameters routed through an exported default pointer (see viaDefault)
+	// an operation of another family run immediately before the call (see disturb; omitted = none)
+	Before int `json:"before,omitempty"`
 }
 
 // hang reports a call that did not return within the (very generous) watchdog and
@@ -273,6 +284,7 @@ func checkC04(c c04Case) verdict {
 	if c.Via != 0 && !c.NilParam {
 		labels = append(labels, "via-exported-default")
 	}
+	disturb(c.Before)
 	if !bounded(func() { got, err = otp.ValidateTOTP(secret, string(c.Code), t, param) }, 10*time.Second) {
 		hang("C04", "main", c, recorders["C04/main"], fmt.Sprintf("ValidateTOTP(skew=%d, period=%d) did not return within 10 s and again within 20 s: work is not bounded in the skew", skew, period))
 	}
@@ -310,6 +322,12 @@ var c04Main = newPart("C04", "main",
 	checkC04)
 
 func genC04(t *rapid.T) c04Case {
+	c := genC04Base(t)
+	c.Before = drawDisturb(t) // drawn last: the cases of a seed are otherwise what they were
+	return c
+}
+
+func genC04Base(t *rapid.T) c04Case {
 	c := c04Case{Key: gen.Key().Draw(t, "key"), Sp: gen.DrawSpelling(t)}
 	c.Digits = rapid.SampledFrom([]int{1, 2, 4, 6, 6, 7, 8, 9, 10}).Draw(t, "digits")
 	c.Algo = rapid.IntRange(0, 2).Draw(t, "algo")
